@@ -236,6 +236,9 @@ Notation L := (p + 2).
 Fixpoint slots_of (ss:list sect) : nat :=
   match ss with [] => 0 | s :: t => Layout.K p + length (snd s) + slots_of t end.
 
+Lemma slots_of_app' a b : slots_of (a ++ b) = slots_of a + slots_of b.
+Proof. induction a as [|x a IH]; cbn [app slots_of]; [reflexivity|]. rewrite IH. lia. Qed.
+
 Lemma ents_app i a b : ents p i (a ++ b) = ents p i a ++ ents p (i + slots_of a) b.
 Proof.
   revert i. induction a as [|[f ls] a IH]; intros i; cbn [app ents slots_of snd].
